@@ -186,11 +186,18 @@ EvalRec(es, env, d, acc) ==
 NameIt(v, n) == IF IsFn(v) /\ v.name = "" THEN [v EXCEPT !.name = n] ELSE v
 
 \* statements of a do-block: direct assignments may shadow (no visibility check), other statements are plain
+\* (`inputs` and `constants` are ordinary names inside a block); `return n = e` is such a direct assignment too
+DoKeywords == Keywords \ {"inputs", "constants"}
 EvalDo(ss, r, env, d) ==
-  IF ss = <<>> THEN Eval(r, env, d)
+  IF ss = <<>> THEN
+       IF r.k = "asg" THEN
+            IF r.n \in DoKeywords THEN Res(ErrC("reserved"), env)
+            ELSE LET x == Eval(r.e, env, d) IN
+                 IF IsE(x.v) THEN x ELSE Res(NameIt(x.v, r.n), SetTop(x.env, r.n, NameIt(x.v, r.n)))
+       ELSE Eval(r, env, d)
   ELSE LET s == Head(ss) IN
        IF s.k = "asg" THEN
-            IF s.n \in Keywords THEN Res(ErrC("reserved"), env)
+            IF s.n \in DoKeywords THEN Res(ErrC("reserved"), env)
             ELSE LET x == Eval(s.e, env, d) IN
                  IF IsE(x.v) THEN x ELSE EvalDo(Tail(ss), r, SetTop(x.env, s.n, NameIt(x.v, s.n)), d)
        ELSE LET x == Eval(s, env, d) IN IF IsE(x.v) THEN x ELSE EvalDo(Tail(ss), r, x.env, d)
